@@ -31,10 +31,16 @@ vars == <<st, net, dec, nrecv, obs>>
 view == <<st, net, dec, nrecv>>
 
 \* ---- substitutions for Tendermint's operator constants (see *.cfg)
-MCPowerOf(h, v) == PowerTable[((h - H0) % Len(PowerTable)) + 1][v]
+\* somebody who is not a validator has no voting power (votes signed by NV + 1 are part of the alphabet)
+MCPowerOf(h, v) == IF v \in 1..NV THEN PowerTable[((h - H0) % Len(PowerTable)) + 1][v] ELSE 0
+Outsider == NV + 1
 Unit4 == << <<1, 1, 1, 1>> >>
 \* total 4 -> 8 (every stake doubles: a stale quorum of 3 would be reached by two disjoint pairs) -> 5
-Grow4 == << <<1, 1, 1, 1>>, <<2, 2, 2, 2>>, <<2, 1, 1, 1>> >>
+\* (at the third height validator 3, a correct one and proposer of some rounds, has NO voting power)
+Grow4 == << <<1, 1, 1, 1>>, <<2, 2, 2, 2>>, <<2, 2, 0, 1>> >>
+\* degenerate validator sets: two validators (f = 0, q = all), a single one (decides alone)
+Two == << <<1, 1>>, <<3, 1>> >>
+Solo == << <<1>>, <<5>> >>
 \* total 11 (q 8, f 3) -> 22 (q 15, f 7) -> 7 (q 5, f 2); validator 1 is the Byzantine one
 Grow7 == << <<3, 2, 2, 1, 1, 1, 1>>, <<6, 4, 4, 2, 2, 2, 2>>, <<1, 1, 1, 1, 1, 1, 1>> >>
 MCProposerOf(h, r) == ((h + r + PropShift) % NV) + 1
@@ -56,7 +62,7 @@ ByzProposals ==
   {m \in {Msg("proposal", h, r, MCProposerOf(h, r), v, vr) :
              h \in H0..MsgMaxHeight, r \in Rounds, v \in 1..MaxVal, vr \in -1..MaxRound} : m.s \in Byz}
 ByzVotes ==
-  [k : {"prevote", "precommit"}, h : H0..MsgMaxHeight, r : Rounds, s : Byz, v : 0..MaxVal, vr : {-1}]
+  [k : {"prevote", "precommit"}, h : H0..MsgMaxHeight, r : Rounds, s : Byz \cup {Outsider}, v : 0..MaxVal, vr : {-1}]
 ByzMsgs == ByzProposals \cup ByzVotes
 
 BroadcastsOf(acts) ==
